@@ -160,7 +160,22 @@ def rule_destroy(ctx, rep):
             # direct decrement), the ordering C02 R-ORD-2
             if fps is not None:
                 frees_here = [p for p in A.paths.get(key, []) if vget(p.vec, "free_raw") or vget(p.vec, "free_s1")]
-                if frees_here and all(not vget(p.vec, "free_raw") and vget(p.vec, "dec") == 1 for p in frees_here) and any(b0["key"] == key for b0, _u, _ps in balance.release_units(F, E)):
+                def _s1_or_typed(p):
+                    if not vget(p.vec, "free_raw"):
+                        return vget(p.vec, "dec") == 1
+                    # ... or the path hands the handle to a function typed as sole owner, which frees it (`Ok(unique) =>
+                    # UniqueArc::into_inner(unique)`: shape S2, judged at that function's own free site)
+                    if vget(p.vec, "dec"):
+                        return False
+                    for e in p.events:
+                        if vget(e["vec"], "free_raw"):
+                            d = e["detail"] if isinstance(e["detail"], dict) else {}
+                            cb = F.body(d.get("callee") or "")
+                            if e["kind"] != "CALL" or cb is None or not any(F.handle_name(x) == "UniqueArc" for x in cb.get("inputs", [])):
+                                return False
+                    return True
+
+                if frees_here and all(_s1_or_typed(p) for p in frees_here) and any(not vget(p.vec, "free_raw") for p in frees_here) and any(b0["key"] == key for b0, _u, _ps in balance.release_units(F, E)):
                     rep.ok("R-DESTROY", ik, "S1 in place", cfg=tag)
                     continue
             # S1: the body must be private and every caller must reach it only after a decrement that observed 1
